@@ -287,6 +287,8 @@ type orderedUpdate struct {
 	db    *DB
 	ops   []RowOpJ
 	table map[string]Row // state before the batch
+	// the models handed to the cache, kept by the caller (who is free to go on using them)
+	handed *[]model.Model
 }
 
 func (o orderedUpdate) GetUpdatedTables() []string { return []string{"T"} }
@@ -298,6 +300,14 @@ func (o orderedUpdate) ForEachModelUpdate(table string, do func(uuid string, old
 		}
 		if op.Op != "delete" {
 			new = o.db.NewModel("T", op.UUID, op.Row)
+		}
+		if o.handed != nil {
+			if old != nil {
+				*o.handed = append(*o.handed, old)
+			}
+			if new != nil {
+				*o.handed = append(*o.handed, new)
+			}
 		}
 		if err := do(op.UUID, old, new); err != nil {
 			return err
@@ -380,7 +390,8 @@ func c05History(r *Run, cfg idxConfig, batches [][]RowOpJ, stream string) bool {
 	var impl []implStep
 	caseJSON := map[string]interface{}{"specs": cfg.specs, "schema_indexes": cfg.schema}
 	for bi, ops := range batches {
-		upd := orderedUpdate{db: db, ops: ops, table: table}
+		var handed []model.Model
+		upd := orderedUpdate{db: db, ops: ops, table: table, handed: &handed}
 		var applyErr error
 		func() {
 			defer func() {
@@ -390,6 +401,14 @@ func c05History(r *Run, cfg idxConfig, batches [][]RowOpJ, stream string) bool {
 			}()
 			applyErr = tc.ApplyCacheUpdate(upd)
 		}()
+		// the caller goes on using the models it handed over (every second batch): the cache holds its own
+		// copies, neither its rows nor its indexes may follow
+		if bi%2 == 1 {
+			for _, m := range handed {
+				mutateModel(m)
+			}
+			caseJSON["caller_rewrites_its_models_after_batch"] = bi
+		}
 		// shadow table
 		next := map[string]Row{}
 		for u, row := range table {
